@@ -30,6 +30,7 @@ func main() {
 		c := newCtx(prop, dir, tier, seed)
 		R = c.R
 		round4(c)
+		round6(c)
 		g(c)
 		c.Finish()
 	default:
